@@ -469,7 +469,7 @@ pub fn run(ctx: &Ctx) -> i32 {
                 };
                 let _ = uniform;
                 let (qa, ea) = key_rules(&q, &ms);
-                let leaves: Vec<gen::Leaf> = ms.iter().map(|m| gen::Leaf { containers: vec![], field: "k".into(), modi: KMod::None, val: m.clone() }).collect();
+                let leaves: Vec<gen::Leaf> = ms.iter().map(|m| gen::Leaf { containers: vec![], field: "k".into(), modi: KMod::None, val: m.clone(), pair_with: None }).collect();
                 for _ in 0..6 {
                     let leaf = &leaves[rng.below(leaves.len())];
                     let v = gen::value_for(&mut rng, leaf);
